@@ -11,6 +11,7 @@ SITE = {
  "keep-live-across-collection": "the collector's marker (Heap::mark recurses on car, closure environments, vectors and saved continuation stacks)",
  "equal": "the recursive structural comparison (Vm::equal / compare_pair / compare_vector)",
  "write": "the recursive heap -> datum conversion (Heap::get_as_cell) and the recursive printer",
+ "display-procedure": "the recursive heap -> datum conversion (Heap::get_as_cell), the recursive printer or the recursive disposal of the converted datum inside the display / write procedures",
 }
 ev = json.load(open('/verif/evidence/C19.json'))
 assert ev['tier'] == 'thorough'
